@@ -19,11 +19,14 @@ pub struct Prog {
     pub via: bool,
     /// number of keys (values per key: 2)
     pub k: u8,
+    /// round-structured alphabet (E1, run unpruned): one action = [toggle observer]; set every
+    /// input; stabilise
+    pub rounds: bool,
 }
 
 impl Prog {
     pub fn to_json(&self) -> Json {
-        json!({"op": self.op.name(), "mt": self.mt.name(), "shared": self.shared, "via": self.via, "k": self.k})
+        json!({"op": self.op.name(), "mt": self.mt.name(), "shared": self.shared, "via": self.via, "k": self.k, "rounds": self.rounds})
     }
     pub fn from_json(j: &Json) -> Option<Prog> {
         Some(Prog {
@@ -32,6 +35,7 @@ impl Prog {
             shared: j["shared"].as_bool()?,
             via: j["via"].as_bool()?,
             k: j["k"].as_u64()? as u8,
+            rounds: j["rounds"].as_bool().unwrap_or(false),
         })
     }
     /// operator name used in cause signatures. The generic operators share one implementation
@@ -56,6 +60,9 @@ pub enum Act {
     Toggle,
     /// set input variable `side` to map number `idx` of `all_maps(k, 2)`
     Set(u8, u16),
+    /// one whole round (programs with `rounds`): toggle the observer if `.0`, set input 0 to
+    /// map `.1` (and input 1 to map `.2` for merge), stabilise
+    Round(bool, u16, u16),
 }
 
 #[derive(Clone, Copy, Debug, PartialEq, Eq, Hash)]
@@ -79,6 +86,10 @@ pub struct MapsWorld {
     /// input if the engine is right); None = the operator has never run
     processed: Option<Vec<u16>>,
     obs: Obs,
+    /// an observer was created and dropped again since the last stabilise (each such pair leaves
+    /// one dead entry in the engine's new-observer queue until the next stabilise; allowing it
+    /// only once per inter-stabilise period keeps the state space finite)
+    dropped_new: bool,
     /// what the observer showed after the last stabilise it took part in
     last_read: Option<Out>,
     // ---- harness
@@ -156,6 +167,20 @@ pub fn judge_calls(sig_op: &str, calls: &[Call], processed: Option<&[&Bt]>, cur:
     (vs, slack)
 }
 
+fn entries_json(i: u16) -> Json {
+    let mut entries = serde_json::Map::new();
+    let mut ix = i as usize;
+    let mut key = 0;
+    while ix > 0 {
+        if ix % 3 != 0 {
+            entries.insert(key.to_string(), json!(enc(key, (ix % 3) as i32)));
+        }
+        ix /= 3;
+        key += 1;
+    }
+    Json::Object(entries)
+}
+
 /// Kind of mismatch between two outputs, for cause signatures.
 pub fn mismatch_class(got: &Out, want: &Out) -> &'static str {
     fn maps(g: &Bt, w: &Bt) -> &'static str {
@@ -196,45 +221,8 @@ impl MapsWorld {
             ("C17", "C17.panic")
         }
     }
-}
-
-impl World for MapsWorld {
-    type Prog = Prog;
-    type Action = Act;
-
-    fn new(prog: &Prog, cfg: &Cfg) -> Self {
-        let maps = maps_for(prog.k);
-        let p = prog.clone();
-        // building the graph is part of every history; a panic here kills the world
-        let rig = catch(move || rig::build(p.op, p.mt, p.shared, p.via)).ok();
-        MapsWorld {
-            prog: prog.clone(),
-            cfg: cfg.clone(),
-            dead: rig.is_none(),
-            rig,
-            maps,
-            cur: vec![0; prog.op.inputs()],
-            processed: None,
-            obs: Obs::None,
-            last_read: None,
-            obs_hash: 0,
-            counters: Counters::new(),
-            explain: String::new(),
-        }
-    }
-
-    fn enabled(&self) -> Vec<Act> {
-        let mut out = vec![Act::Stabilise, Act::Toggle];
-        for side in 0..self.prog.op.inputs() {
-            for i in 0..self.maps.len() {
-                // writing the current value again is part of the alphabet (equal-value writes)
-                out.push(Act::Set(side as u8, i as u16));
-            }
-        }
-        out
-    }
-
-    fn step(&mut self, a: &Act, check: bool) -> Vec<Violation> {
+    /// one elementary action
+    fn step_one(&mut self, a: &Act, check: bool) -> Vec<Violation> {
         let mut vs = vec![];
         self.explain.clear();
         let Some(rig) = self.rig.as_mut() else {
@@ -255,6 +243,7 @@ impl World for MapsWorld {
                     }
                 }
                 Act::Set(side, i) => rig.set(*side as usize, &maps[*i as usize]),
+                Act::Round(..) => unreachable!("rounds are split into elementary actions"),
             }
             rig.read()
         });
@@ -267,7 +256,7 @@ impl World for MapsWorld {
                 let kind = match a {
                     Act::Stabilise => "Stabilise",
                     Act::Toggle => "Toggle",
-                    Act::Set(..) => "Set",
+                    Act::Set(..) | Act::Round(..) => "Set",
                 };
                 let (prop, rule) = self.panic_property();
                 vs.push(viol(prop, rule, format!("{}:{}@{}", self.prog.sig_op(), kind, p.short_location()), format!("{a:?} panicked at {}: {}", p.short_location(), p.first_line())));
@@ -283,12 +272,15 @@ impl World for MapsWorld {
                 self.cur[*side as usize] = *i;
             }
             Act::Toggle => {
+                if self.obs == Obs::New {
+                    self.dropped_new = true;
+                }
                 self.obs = if self.obs == Obs::None { Obs::New } else { Obs::None };
                 if self.obs == Obs::None {
                     self.last_read = None;
                 }
             }
-            Act::Stabilise => {}
+            Act::Stabilise | Act::Round(..) => {}
         }
 
         if *a != Act::Stabilise {
@@ -309,6 +301,7 @@ impl World for MapsWorld {
         }
 
         // ---- Stabilise
+        self.dropped_new = false;
         let observed = self.obs != Obs::None;
         // While nobody observes the output the operator is not needed and does not run. Should
         // the engine run it anyway (something was recomputed / a user function ran), follow it:
@@ -380,8 +373,6 @@ impl World for MapsWorld {
                 }
             }
             self.processed = Some(cur_ix);
-        } else if !calls.is_empty() {
-            unreachable!();
         }
         if check {
             self.explain = format!("calls: {calls:?} read: {read:?} recomputed: {recomputed}");
@@ -389,16 +380,105 @@ impl World for MapsWorld {
         vs
     }
 
-    fn canon(&self) -> Option<String> {
+
+    fn canon_text(&self) -> Option<String> {
         // The operators keep their old input inside a closure where the dump cannot see it;
         // the model's `processed` stands in for it (they agree unless C15/C17 already failed).
         // Old outputs are node values and are printed by the dump.
         let rig = self.rig.as_ref()?;
-        let mut s = format!("cur={:?} processed={:?} obs={:?} last={:?} has_obs={}\n", self.cur, self.processed, self.obs, self.last_read, rig.has_observer());
+        let mut s = format!("cur={:?} processed={:?} obs={:?}/{} last={:?} has_obs={}\n", self.cur, self.processed, self.obs, self.dropped_new, self.last_read, rig.has_observer());
         s.push_str(&canonicalise_dump(&rig.state.verif_dump()));
         Some(s)
     }
+}
 
+impl World for MapsWorld {
+    type Prog = Prog;
+    type Action = Act;
+
+    fn new(prog: &Prog, cfg: &Cfg) -> Self {
+        let maps = maps_for(prog.k);
+        let p = prog.clone();
+        // building the graph is part of every history; a panic here kills the world
+        let rig = catch(move || rig::build(p.op, p.mt, p.shared, p.via)).ok();
+        MapsWorld {
+            prog: prog.clone(),
+            cfg: cfg.clone(),
+            dead: rig.is_none(),
+            rig,
+            maps,
+            cur: vec![0; prog.op.inputs()],
+            processed: None,
+            obs: Obs::None,
+            dropped_new: false,
+            last_read: None,
+            obs_hash: 0,
+            counters: Counters::new(),
+            explain: String::new(),
+        }
+    }
+
+    fn enabled(&self) -> Vec<Act> {
+        if self.prog.rounds {
+            let n = self.maps.len() as u16;
+            let n2 = if self.prog.op.inputs() == 2 { n } else { 1 };
+            let mut out = vec![];
+            for toggle in [false, true] {
+                for i in 0..n {
+                    for j in 0..n2 {
+                        out.push(Act::Round(toggle, i, j));
+                    }
+                }
+            }
+            return out;
+        }
+        let mut out = vec![Act::Stabilise];
+        if !(self.obs == Obs::New && self.dropped_new) {
+            out.push(Act::Toggle);
+        }
+        for side in 0..self.prog.op.inputs() {
+            for i in 0..self.maps.len() {
+                // writing the current value again is part of the alphabet (equal-value writes)
+                out.push(Act::Set(side as u8, i as u16));
+            }
+        }
+        out
+    }
+
+    fn step(&mut self, a: &Act, check: bool) -> Vec<Violation> {
+        let Act::Round(toggle, i, j) = a else {
+            return self.step_one(a, check);
+        };
+        let mut subs = vec![];
+        if *toggle {
+            subs.push(Act::Toggle);
+        }
+        subs.push(Act::Set(0, *i));
+        if self.prog.op.inputs() == 2 {
+            subs.push(Act::Set(1, *j));
+        }
+        subs.push(Act::Stabilise);
+        let mut vs = vec![];
+        let mut explain = String::new();
+        for sub in subs {
+            vs.extend(self.step_one(&sub, check));
+            explain.push_str(&format!("{sub:?}: {}; ", self.explain));
+            if self.dead {
+                break;
+            }
+        }
+        self.explain = explain;
+        vs
+    }
+
+    fn canon(&self) -> Option<String> {
+        if self.prog.rounds {
+            // round-structured programs exist to exercise the operators' hidden closure state
+            // (which no digest can see): never pruned
+            return None;
+        }
+        self.canon_text()
+    }
     fn dead(&self) -> bool {
         self.dead
     }
@@ -425,7 +505,9 @@ impl World for MapsWorld {
         match a {
             Act::Stabilise => json!("stabilise"),
             Act::Toggle => json!("toggle_observer"),
-            Act::Set(side, i) => json!({"set": side, "map": i}),
+            // "entries*" are informative only (a map's index does not depend on K)
+            Act::Set(side, i) => json!({"set": side, "map": i, "entries": entries_json(*i)}),
+            Act::Round(toggle, i, j) => json!({"round": {"toggle_observer": toggle, "set0": i, "set1": j, "entries0": entries_json(*i), "entries1": entries_json(*j)}}),
         }
     }
     fn action_from_json(j: &Json) -> Option<Act> {
@@ -433,8 +515,16 @@ impl World for MapsWorld {
             Some("stabilise") => Some(Act::Stabilise),
             Some("toggle_observer") => Some(Act::Toggle),
             Some(_) => None,
-            None => Some(Act::Set(j["set"].as_u64()? as u8, j["map"].as_u64()? as u16)),
+            None => {
+                if let Some(r) = j.get("round") {
+                    return Some(Act::Round(r["toggle_observer"].as_bool()?, r["set0"].as_u64()? as u16, r["set1"].as_u64()? as u16));
+                }
+                Some(Act::Set(j["set"].as_u64()? as u8, j["map"].as_u64()? as u16))
+            }
         }
+    }
+    fn audit(&self) -> Vec<String> {
+        self.rig.as_ref().map_or(vec![], |r| r.state.verif_audit())
     }
     fn explain_last(&self) -> String {
         self.explain.clone()
